@@ -431,8 +431,13 @@ fn write_std(
 ) -> WriteResult {
     let start_pos = f.pos()?;
 
-    f.write_u16(std.objects.len() as u16)?;
-    f.write_u16(std.objects.values().map(|x| x.quads.len()).sum::<usize>() as u16)?;
+    let num_quads = std.objects.values().map(|x| x.quads.len()).sum::<usize>();
+    f.write_u16(u16::try_from(std.objects.len()).map_err(|_| {
+        emitter.emit(error!("too many objects! (max allowed is {})", u16::MAX))
+    })?)?;
+    f.write_u16(u16::try_from(num_quads).map_err(|_| {
+        emitter.emit(error!("too many quads! (max allowed is {} in total)", u16::MAX))
+    })?)?;
 
     let instances_offset_pos = f.pos()?;
     f.write_u32(0)?;
